@@ -204,6 +204,33 @@ def rand_sessions(rng, net, nmax=7, horizon=30, bkinds=("ideal", "l2c", "l2s"), 
     return out
 
 
+def dense_sessions(rng, net, sid_other_p=0.1):
+    """Many simultaneously connected sessions: about one per station, staggered (mostly distinct) arrivals, long stays,
+    distinct estimated departures — so that sessions compete for the constraints (C07/C08)."""
+    stn = [x["id"] for x in net["stations"]]
+    rng.shuffle(stn)
+    arrivals = rng.sample(range(0, len(stn) + 3), len(stn))
+    used, sessions = set(), []
+    for k, sid_ in enumerate(stn):
+        if rng.random() < 0.12 and len(stn) > 2 and k > 0:
+            continue
+        a = arrivals[k] if rng.random() < 0.85 else rng.choice(arrivals)
+        dep = a + rng.randint(4, 16)
+        est = dep + rng.choice([0, 0, 1, 3, -1, -2])
+        while est in used or est <= a:
+            est += 1
+        used.add(est)
+        req = rng.choice([0.3, 1, 3, 8, 25, 25])
+        b = rand_battery(rng, req, ("ideal", "ideal", "l2c"))
+        b["cap"] = max(b["cap"], b["init"] + req + 1)
+        name = f"x{k}" if rng.random() > 2 * sid_other_p else (rng.choice(stn) if rng.random() < 0.5 else f"y{k}")
+        if any(o["id"] == name for o in sessions):
+            name = f"x{k}"
+        sessions.append({"id": name, "station": sid_, "arrival": a, "departure": dep, "requested": req, "est_dep": est, "battery": b})
+    rng.shuffle(sessions)
+    return sessions
+
+
 # --------------------------------------------------------------- schedulers
 SORTS = ["fcfs", "lcfs", "edf", "llf", "lrpt"]
 
